@@ -27,6 +27,24 @@ pub trait ReactComponent: Sized {}
 // the iterator `RemovedComponents::read()` hands out: the unread removal events, front to back
 #[verifier::external_body] pub struct RemovedIter<'a> { _p: core::marker::PhantomData<&'a u8> }
 impl<'a> RemovedIter<'a> { pub uninterp spec fn elems(&self) -> Seq<Entity>; pub uninterp spec fn pos(&self) -> nat; }
+impl<'a> RemovedIter<'a> {
+    // Iterator::filter(f): the items for which f returns true, in order (std).  Nothing is known about an un-annotated predicate, so a body
+    // that filters the reports cannot establish `all unread reports` - which is the point: the property says EVERY removal is reacted to.
+    #[verifier::external_body]
+    pub fn filter<F: FnMut(&Entity) -> bool>(self, f: F) -> (r: RemovedIter<'a>)
+        ensures r.pos() == 0, r.elems().len() <= self.elems().len() - self.pos(),
+                (forall|x: Entity| call_ensures(f, (&x,), true) && !call_ensures(f, (&x,), false)) ==> r.elems() == self.elems().skip(self.pos() as int),
+    { unimplemented!() }
+}
+// Bevy query stand-ins, so that a body that consults the world is still inside the subset (reads only)
+#[verifier::external_body] #[verifier::accept_recursive_types(D)] #[verifier::accept_recursive_types(F)] pub struct Query<D, F = ()> { _p: core::marker::PhantomData<(D, F)> }
+#[verifier::external_body] #[verifier::accept_recursive_types(T)] pub struct With<T> { _p: core::marker::PhantomData<T> }
+#[verifier::external_body] #[verifier::accept_recursive_types(T)] pub struct Without<T> { _p: core::marker::PhantomData<T> }
+impl<D, F> Query<D, F> {
+    pub uninterp spec fn matches(&self, e: Entity) -> bool;
+    #[verifier::external_body]
+    pub fn contains(&self, e: Entity) -> (b: bool) ensures b == self.matches(e) { unimplemented!() }
+}
 impl<'a> Iterator for RemovedIter<'a> { type Item = Entity; #[verifier::external_body] fn next(&mut self) -> (r: Option<Entity>) { unimplemented!() } }
 impl<'a> vstd::std_specs::iter::IteratorSpecImpl for RemovedIter<'a> {
     open spec fn obeys_prophetic_iter_laws(&self) -> bool { true }
